@@ -1080,11 +1080,13 @@ def run(tier: str, only=None) -> core.Result:
             cfgs += ctor_cfgs(c, 2, IDS)
     out = explorer.explore(RUN, cfgs)
     sched.absorb(res, "a-constructors", RUN, out, cfgs)
+    sched.debug_pass(res, "a-constructors", RUN, cfgs, every=(61 if tier == "quick" else 301))
     samples = _pick("a-constructors", cfgs)
 
     # ---- (b) helpers -----------------------------------------------------------------------
     out = explorer.explore(RUN, helper_cfg)
     sched.absorb(res, "b-send-helpers", RUN, out, helper_cfg)
+    sched.debug_pass(res, "b-send-helpers", RUN, helper_cfg, every=(7 if tier == "quick" else 11))
     samples += _pick("b-send-helpers", helper_cfg)
 
     # ---- (c) server ------------------------------------------------------------------------
@@ -1096,6 +1098,7 @@ def run(tier: str, only=None) -> core.Result:
                  for ci in range(len(SERVER_CASES)) for ii in range(len(IDS))]
     out = explorer.explore(RUN, cfgs)
     sched.absorb(res, "c-server-handler", RUN, out, cfgs)
+    sched.debug_pass(res, "c-server-handler", RUN, cfgs, every=(29 if tier == "quick" else 59))
     samples += _pick("c-server-handler", cfgs)
 
     # ---- (d) transports ----------------------------------------------------------------------
@@ -1111,6 +1114,7 @@ def run(tier: str, only=None) -> core.Result:
                                  "lo": lo, "hi": hi})
     out = explorer.explore(RUN, cfgs)
     sched.absorb(res, "d-stdio-serialiser", RUN, out, cfgs)
+    sched.debug_pass(res, "d-stdio-serialiser", RUN, cfgs, every=(53 if tier == "quick" else 41))
     samples += _pick("d-stdio-serialiser", cfgs)
     cfgs = [{"part": "rejection"}]
     out = explorer.explore(RUN, cfgs)
@@ -1130,14 +1134,20 @@ def run(tier: str, only=None) -> core.Result:
     if cfgs:
         out = explorer.explore(RUN, cfgs)
         sched.absorb(res, "e-raw-dict-emitters", RUN, out, cfgs)
+        sched.debug_pass(res, "e-raw-dict-emitters", RUN, cfgs, every=(9 if tier == "quick" else 23))
         samples += _pick("e-raw-dict-emitters", cfgs)
 
     # ---- measured counts -----------------------------------------------------------------
     cnt: Dict[str, int] = {}
-    for p in res.parts.values():
+    dbg_exec = 0
+    for pname, p in res.parts.items():
+        if pname.endswith("+debug-logging"):
+            dbg_exec += p["executions"]  # re-runs of cases already counted: kept out of the headline numbers
+            continue
         for k, v in p["counters"].items():
             cnt[k] = cnt.get(k, 0) + v
     cov = res.coverage
+    cov["debug_logging_reruns"] = dbg_exec
     cov["samples"] = samples  # chosen by position in the enumeration, so identical from run to run
     cov["evaluations"] = cnt.get("cases", 0) + cnt.get("calls", 0)
     cov["messages_emitted_and_judged"] = cnt.get("emitted", 0)
@@ -1187,6 +1197,7 @@ def run(tier: str, only=None) -> core.Result:
         "whether such a member should be answered at all is not C02's subject. The batch array as a whole is not fed to parse_message (it classifies only single messages reliably); every member is",
         "raw-dict emitters of the HTTP/SSE transports are listed as undriven here with the property that drives them (C11/C12)",
         "HTTP and SSE request bodies (model_dump(exclude_none=True) + httpx json=) are the first serialised form judged in (a)/(b); the POST itself is exercised by C11/C12",
+        "a slice of every part is re-run with the library's logging enabled at DEBUG (parts named +debug-logging; not counted in the headline numbers)",
         "seeded deep JSON of the quantifier is replaced by the bounded-exhaustive depth-" + str(depth) + " enumeration",
     ]
     return res
